@@ -171,10 +171,7 @@ def splitOps (rest : String) : List String := (rest.splitOn ";").filter (· ≠ 
 
 /-- the output for the two deployment variants; identical unless the history observes the contract's ONT balance -/
 def historyLine (verbose : Bool) (funded : Bool) (rest : String) : String :=
-  let s0 := initSt funded genesis
-  let shipped := runHistory verbose (splitOps rest) s0 []
-  let sound := runHistory verbose (splitOps rest) { s0 with book := { s0.book with soundGp := true } } []
-  if shipped == sound then shipped else shipped ++ " ## " ++ sound
+  runHistory verbose (splitOps rest) (initSt funded genesis) []
 
 /-! ### direct fee-split cases
 `S <newPeerCost> <exactDiv> <K> <A> <B> <yita> <splitNum> <dappFee> <gas|-> <balance> <splitFee> <cands>`
